@@ -22,7 +22,8 @@ EXTENDS Integers, Sequences, FiniteSets, TLC, Json
 
 CONSTANTS LayoutNames,  \* subset of DOMAIN Layouts to explore
           Defects,
-          Emit          \* TRUE: print one CASE line per case
+          Emit,         \* TRUE: print one CASE line per case
+          Dense         \* TRUE (thorough tier): every number of supplied bytes 0..2T instead of the boundary points
 
 Big == 2000000000         \* stands for 2^32-1 in comparisons (TLC integers are 32 bit)
 Large == 16777216         \* 16 MiB: an absurd length that is still safe to try for real
@@ -107,7 +108,7 @@ Points(L, f, m) ==
       raw == {0, 1, 2, 3, L.min - 1, L.min, L.min + 1, fl.off - 1, fl.off, fl.off + 1, fl.off + fl.w - 1, fl.off + fl.w,
               fl.off + fl.w + 1, L.fixed - 1, L.fixed, L.fixed + 1, hs - 1, hs, hs + 1, he - 1, he, he + 1,
               T - 4, T - 3, T - 2, T - 1, T, T + 1, T + 3, T + 7, 2 * T, A - 4, A - 1, A, A + 1}
-  IN { p \in raw : p >= 0 /\ p <= 2 * T }
+  IN IF Dense THEN 0..(2 * T) ELSE { p \in raw : p >= 0 /\ p <= 2 * T }
 
 (* ------------------------------------------------------------------ the contract (what C08 demands)
    out \in {"frame","more","error","panic","loop"}; consumed = bytes drained; alloc = bytes allocated;
